@@ -159,10 +159,12 @@ def policyVerdict : Option PolicyKind → Verdict
   | some .deny => .denied
   | none => .noMatch
 
-/-- `Authorize`. `pinnedReset = true`: the pinned tree's overwrite of the base world. -/
+/-- `Authorize`. `pinnedReset = true`: the pinned tree's overwrite of the base world. The
+evaluated flag is set whatever the outcome (authorizer.go: `v.dirty = true` before the world
+is touched; finding D25). -/
 def authorizeWith (pinnedReset : Bool) (tok : Token) (s : AuthState) : AuthState × Verdict :=
   match authorityPhase cfg tok.authority s with
-  | (w, .error e) => ({ s with world := w }, .runError e)
+  | (w, .error e) => ({ s with world := w, dirty := true }, .runError e)
   | (w, .ok ap) =>
     let s' : AuthState := { s with world := w, dirty := true }
     match blockPhase cfg s.limits w.facts tok.blocks 1 ap.failed with
@@ -179,7 +181,7 @@ def authorize (tok : Token) (s : AuthState) : AuthState × Verdict :=
 /-- `Query` (authorizer.go:280-299): run the authority-level world, then query it. -/
 def query (s : AuthState) (q : DRule) : AuthState × Except RunErr (List DFact) :=
   match runWorld cfg s.limits s.world with
-  | (w, some e) => ({ s with world := w }, .error e)
+  | (w, some e) => ({ s with world := w, dirty := true }, .error e)
   | (w, none) => ({ s with world := w, dirty := true }, .ok (queryRule (evalBool cfg) q w.facts))
 
 end
